@@ -1,19 +1,10 @@
-(* C18 - executable model of src/mrpro/data/MoveDataMixin.py: to / cpu / double / single / half / clone (-> _to) and
-   apply_ with its memo, on an abstract object graph.
-
-   heap : list node, the python object id of a node is its position; conversion allocates by appending.
-   Node kinds
-     NTensor  t      a torch.Tensor: dtype kind, precision, id of its storage, id of its content (values), view flag
-     NMixin   fs     a dataclass deriving from MoveDataMixin (KData, KHeader, AcqInfo, KTrajectory ...): ids of the fields;
-                     MoveDataMixin.apply_ is used with the memo handed down by the parent
-     NSpatial fs     SpatialDimension: its apply_ override passes memo / recurse on to MoveDataMixin.apply_ (repaired
-                     behaviour, /repo c3cf2ec), so it is converted exactly like any other mixin
-     NModule  ts     a torch.nn.Module that is not a MoveDataMixin (Rotation): its parameters and buffers
-     NPlain c m      any other object (int, str, EncodingLimits, dict ...): content id, mutable flag
-   Only what `_to` does on the CPU is modelled (device moves do not exist here).                                 *)
+(* C18 legacy: the model of MoveDataMixin._to as it was BEFORE the repairs c3cf2ec (SpatialDimension.apply_ dropped the
+   memo) and ff6337f (Module fields converted in place without copy), kept under the module name Legacy together with the
+   two refutations that documented the defects (former KF-C18-1 / KF-C18-2).  Nothing else depends on this file. *)
 From MrVerif Require Import Base.Prelude.
 Local Open Scope nat_scope.
 
+Module Legacy.
 Inductive kind := KFloat | KComplex | KInt | KBool.
 Inductive prec := P16 | P32 | P64.   (* bits of one real component: float16/32/64, complex32/64/128; ints keep theirs *)
 
@@ -93,18 +84,26 @@ Fixpoint lookup (k : nat) (m : list (nat * nat)) : option nat :=
   | (a, b) :: r => if Nat.eqb a k then Some b else lookup k r
   end.
 
+Fixpoint upd (h : heap) (i : nat) (n : node) : heap :=
+  match h, i with
+  | [], _ => []
+  | _ :: r, O => n :: r
+  | x :: r, S j => x :: upd r j n
+  end.
+
 Definition alloc (n : node) (st : state) : nat * state :=
   (length (s_heap st), mkS (s_heap st ++ [n]) (s_memo st) (s_next st)).
 
 Definition add_memo (k v : nat) (st : state) : state := mkS (s_heap st) ((k, v) :: s_memo st) (s_next st).
 
-(* deepcopy(module)._apply(_tensor_to): every parameter / buffer, in order, ends up in a storage of its own (the deep copy
-   is made for every copy flag: Module._apply works in place and the source must not change - /repo ff6337f);
-   fresh storages are numbered from [s] *)
+(* Module._apply(_tensor_to): every parameter / buffer, in order; fresh storages are numbered from [s] *)
 Fixpoint conv_module (c : cfg) (ts : list tens) (s : nat) : list tens * nat :=
   match ts with
   | [] => ([], s)
-  | t :: r => let '(r', s') := conv_module c r (S s) in (conv_tens c s t :: r', s')
+  | t :: r =>
+      if needs_new c t
+      then let '(r', s') := conv_module c r (S s) in (conv_tens c s t :: r', s')
+      else let '(r', s') := conv_module c r s in (t :: r', s')
   end.
 
 (* _convert on an object that is neither a MoveDataMixin ... *)
@@ -117,12 +116,36 @@ Definition conv_leaf (c : cfg) (d : nat) (n : node) (st : state) : option (nat *
       else Some (d, st)
   | NModule ts =>
       let '(ts', s') := conv_module c ts (s_next st) in
-      Some (length (s_heap st), mkS (s_heap st ++ [NModule ts']) (s_memo st) s')
+      if c_copy c
+      then (* deepcopy(module)._apply(...) *)
+           Some (length (s_heap st), mkS (s_heap st ++ [NModule ts']) (s_memo st) s')
+      else (* module._apply(...) works IN PLACE on the source's module *)
+           Some (d, mkS (upd (s_heap st) d (NModule ts')) (s_memo st) s')
   | NPlain ct mut =>
       if c_copy c && mut
       then Some (length (s_heap st), mkS (s_heap st ++ [NPlain ct mut]) (s_memo st) (s_next st))   (* deepcopy *)
       else Some (d, st)    (* shared (copy=False), or an immutable object whose identity does not matter *)
   | _ => None
+  end.
+
+(* SpatialDimension: MoveDataMixin.apply_ with a memo of its own [lm]; the fields are tensors or plain values *)
+Fixpoint leaf_loop (c : cfg) (fs : list nat) (lm : list (nat * nat)) (st : state) : option (list nat * state) :=
+  match fs with
+  | [] => Some ([], st)
+  | x :: r =>
+      match lookup x lm with
+      | Some y => match leaf_loop c r lm st with Some (ys, st') => Some (y :: ys, st') | None => None end
+      | None =>
+          match nth_error (s_heap st) x with
+          | Some n =>
+              match conv_leaf c x n st with
+              | Some (y, st1) =>
+                  match leaf_loop c r ((x, y) :: lm) st1 with Some (ys, st2) => Some (y :: ys, st2) | None => None end
+              | None => None
+              end
+          | None => None
+          end
+      end
   end.
 
 (* MoveDataMixin.apply_(function, memo=memo, recurse=False): one pass over _items() *)
@@ -156,7 +179,7 @@ Fixpoint conv (fuel : nat) (c : cfg) (d : nat) (st : state) : option (nat * stat
           | None => None
           end
       | Some (NSpatial fs) =>
-          match field_loop (conv f c) fs st with
+          match leaf_loop c fs [] st with
           | Some (ys, st') => Some (alloc (NSpatial ys) st')
           | None => None
           end
@@ -187,9 +210,23 @@ Fixpoint resolve (h : heap) (d : nat) (p : list nat) : option nat :=
       end
   end.
 
+(* the same, but only through containers that use the shared memo *)
+Fixpoint resolve_g (h : heap) (d : nat) (p : list nat) : option nat :=
+  match p with
+  | [] => Some d
+  | i :: q =>
+      match nth_error h d with
+      | Some (NMixin fs) => match nth_error fs i with Some x => resolve_g h x q | None => None end
+      | _ => None
+      end
+  end.
+
 (* children have smaller ids than their parents: an acyclic graph, numbered in post-order *)
 Definition wf_heap (h : heap) : Prop :=
   forall d fs, (nth_error h d = Some (NMixin fs) \/ nth_error h d = Some (NSpatial fs)) -> Forall (fun x => x < d) fs.
+
+(* SpatialDimension holds tensors or plain values only *)
+Definition is_leaf (n : node) : bool := match n with NTensor _ | NPlain _ _ | NModule _ => true | _ => false end.
 
 (* all storage ids in the heap are below [ns] *)
 Definition tens_below (ns : nat) (t : tens) : Prop := t_storage t < ns.
@@ -206,18 +243,30 @@ Definition wf_heapb (h : heap) : bool :=
   forallb (fun '(d, n) => match n with NMixin fs | NSpatial fs => forallb (fun x => x <? d) fs | _ => true end)
           (combine (seq 0 (length h)) h).
 
-(* ---- printing for the correspondence harness: plain numbers only --------------------------------- *)
-Definition kind_code (k : kind) : nat := match k with KFloat => 0 | KComplex => 1 | KInt => 2 | KBool => 3 end.
-Definition prec_code (p : prec) : nat := match p with P16 => 0 | P32 => 1 | P64 => 2 end.
-Definition encode_tens (t : tens) : list nat :=
-  [kind_code (t_kind t); prec_code (t_prec t); t_storage t; t_content t; if t_view t then 1 else 0].
-Definition encode_node (n : node) : nat * list nat :=
-  match n with
-  | NTensor t => (0, encode_tens t)
-  | NMixin fs => (1, fs)
-  | NSpatial fs => (2, fs)
-  | NModule ts => (3, flat_map encode_tens ts)
-  | NPlain c m => (4, [c; if m then 1 else 0])
-  end.
-Definition encode_result (r : option (nat * heap)) : option (nat * list (nat * list nat)) :=
-  match r with Some (root, h) => Some (root, map encode_node h) | None => None end.
+
+(* old behaviour: aliasing across a SpatialDimension boundary was lost by clone() *)
+Theorem alias_spatial_refuted : exists h ns root r h' x z z',
+  wf_heap h /\ call_top Clone h ns root = Some (r, h')
+  /\ resolve h root [0; 0] = Some x /\ resolve h root [1] = Some x
+  /\ resolve h' r [0; 0] = Some z /\ resolve h' r [1] = Some z' /\ z <> z'.
+Proof.
+  exists [NTensor (mkT KFloat P32 0 0 false); NTensor (mkT KFloat P32 1 1 false); NSpatial [0; 1; 1]; NMixin [2; 0]],
+         2, 3. do 5 eexists.
+  split.
+  - intros d fs [H|H]; destruct d as [|[|[|[|d]]]]; simpl in H; try discriminate; try (destruct d; discriminate);
+      injection H as <-; repeat constructor.
+  - vm_compute. split; [reflexivity|]. split; [reflexivity|]. split; [reflexivity|]. split; [reflexivity|].
+    split; [reflexivity|]. discriminate.
+Qed.
+
+(* old behaviour: a precision-changing call without copy modified the source's module node *)
+Theorem source_modified_nocopy_refuted : exists h ns root r h',
+  wf_heap h /\ call_top (Single false) h ns root = Some (r, h') /\ nth_error h' 0 <> nth_error h 0.
+Proof.
+  exists [NModule [mkT KFloat P64 0 0 false]; NMixin [0]], 1, 1. do 2 eexists.
+  split.
+  - intros d fs [H|H]; destruct d as [|[|d]]; simpl in H; try discriminate; try (destruct d; discriminate);
+      injection H as <-; repeat constructor.
+  - vm_compute. split; [reflexivity|discriminate].
+Qed.
+End Legacy.
